@@ -27,6 +27,7 @@ From Coq Require Import List.
 From PV Require Import Lib.Py Model.Graph Model.Fail.
 From PV Require Import Proofs.C01Base Proofs.C01Eval Proofs.C01Inv.
 From PV Require Import Proofs.C09Eval Proofs.C09Inv Proofs.C09 Proofs.C09Repair.
+From PV Require Import Proofs.C01Weak Proofs.C09Weak.
 Import ListNotations.
 
 (* the invariant holds initially and survives every operation — an evaluate or
@@ -151,3 +152,103 @@ Theorem C09_repair_value_partial : forall W fsem fpre rorder sem f0 v0,
     snd (evaluate_f W fsem fpre rorder s2 d) = FVal (spec (as_input W f0 v0) sem (st_cache s2) d).
 Proof. exact repair_value. Qed.
 Print Assumptions C09_repair_value_partial.
+
+(* ---- the same theorems under the WEAK non-blank condition of Props/C01.v on
+   the completion sem (sem_nonblank_weak: non-blank on argument lists whose
+   formula/range arguments are non-blank), i.e. for workbooks with whole-column
+   references (C01_alias_weak; such a workbook does not meet sem_nonblank:
+   C01_alias_not_strong).  Proofs/C09WeakTransfer.v, C09Weak.v: the machine
+   with failures, fspec, FInv, fext and fails_at coincide for (fsem, sem) and the
+   guarded pair (guard_f W fsem, guard W sem), which meets the strong
+   hypotheses; the statements are those above with the weak condition
+   (C09_inv_meaning has no non-blank hypothesis). *)
+Theorem C09_inv_preserved_weak : forall W fsem fpre rorder sem,
+  wf W -> sem_nonblank_weak W sem -> completes fsem fpre sem -> (forall n, wb_stored W n = VNone) ->
+  FInv W fsem fpre sem (init W) /\
+  forall s o, FInv W fsem fpre sem s -> fok_op W s o ->
+              FInv W fsem fpre sem (fst (step_f W fsem fpre rorder s o)).
+Proof. exact inv_preserved_weak. Qed.
+Print Assumptions C09_inv_preserved_weak.
+
+Theorem C09_evaluate_outcome_weak : forall W fsem fpre rorder sem,
+  wf W -> sem_nonblank_weak W sem -> completes fsem fpre sem -> (forall n, wb_stored W n = VNone) ->
+  forall s n, FInv W fsem fpre sem s -> n < wb_n W ->
+    let r := evaluate_f W fsem fpre rorder s n in
+    FInv W fsem fpre sem (fst r)
+    /\ fval (snd r) = fval (fspec W fsem fpre (st_cache s) n)
+    /\ fext W fsem fpre (anceq W n) (st_cache s) (st_cache (fst r))
+    /\ (forall m, st_built s m = true -> st_built (fst r) m = true).
+Proof. exact evaluate_f_inv_weak. Qed.
+Print Assumptions C09_evaluate_outcome_weak.
+
+Theorem C09_failed_evaluate_weak : forall W fsem fpre rorder sem,
+  wf W -> sem_nonblank_weak W sem -> completes fsem fpre sem -> (forall n, wb_stored W n = VNone) ->
+  forall s n, FInv W fsem fpre sem s -> n < wb_n W ->
+    is_raise (snd (evaluate_f W fsem fpre rorder s n)) = true ->
+    let s' := fst (evaluate_f W fsem fpre rorder s n) in
+    FInv W fsem fpre sem s' /\ fext W fsem fpre (anceq W n) (st_cache s) (st_cache s') /\
+    wb_input W n = false /\ st_cache s' n = VNone /\
+    is_raise (fspec W fsem fpre (st_cache s) n) = true.
+Proof. exact failed_evaluate_weak. Qed.
+Print Assumptions C09_failed_evaluate_weak.
+
+Theorem C09_unrelated_weak : forall W fsem fpre rorder sem,
+  wf W -> sem_nonblank_weak W sem -> completes fsem fpre sem -> (forall n, wb_stored W n = VNone) ->
+  forall h n, fok_history W fsem fpre rorder (init W) h -> n < wb_n W ->
+    let s := fst (run_f W fsem fpre rorder (init W) h) in
+    (forall k, k = n \/ anc W k n -> ~ fails_at W fsem fpre sem (st_cache s) k) ->
+    snd (evaluate_f W fsem fpre rorder s n) = FVal (spec W sem (st_cache s) n).
+Proof. exact unrelated_weak. Qed.
+Print Assumptions C09_unrelated_weak.
+
+Theorem C09_retry_weak : forall W fsem fpre rorder sem,
+  wf W -> sem_nonblank_weak W sem -> completes fsem fpre sem -> (forall n, wb_stored W n = VNone) ->
+  forall s n h, FInv W fsem fpre sem s -> n < wb_n W ->
+    is_raise (snd (evaluate_f W fsem fpre rorder s n)) = true ->
+    let s1 := fst (evaluate_f W fsem fpre rorder s n) in
+    fok_history W fsem fpre rorder s1 h -> writes_avoid (fun a => anc W a n) h ->
+    forall d, d < wb_n W -> d = n \/ anc W n d ->
+      is_raise (snd (evaluate_f W fsem fpre rorder (fst (run_f W fsem fpre rorder s1 h)) d)) = true /\
+      st_cache (fst (evaluate_f W fsem fpre rorder (fst (run_f W fsem fpre rorder s1 h)) d)) d = VNone.
+Proof. exact retry_weak. Qed.
+Print Assumptions C09_retry_weak.
+
+Theorem C09_retry_deterministic_weak : forall W fsem fpre rorder sem,
+  wf W -> sem_nonblank_weak W sem -> completes fsem fpre sem -> (forall n, wb_stored W n = VNone) ->
+  forall s n, FInv W fsem fpre sem s -> n < wb_n W ->
+    is_raise (snd (evaluate_f W fsem fpre rorder s n)) = true ->
+    forall s2, FInv W fsem fpre sem s2 ->
+      (forall k, wb_input W k = true -> anc W k n -> st_cache s2 k = st_cache s k) ->
+      forall d, d < wb_n W -> d = n \/ anc W n d ->
+        is_raise (snd (evaluate_f W fsem fpre rorder s2 d)) = true /\
+        st_cache (fst (evaluate_f W fsem fpre rorder s2 d)) d = VNone.
+Proof. exact retry_state_weak. Qed.
+Print Assumptions C09_retry_deterministic_weak.
+
+Theorem C09_repair_weak_partial : forall W fsem fpre rorder sem f0 v0,
+  wf W -> sem_nonblank_weak W sem -> completes fsem fpre sem -> (forall n, wb_stored W n = VNone) ->
+  f0 < wb_n W -> wb_input W f0 = false -> v0 <> VNone ->
+  forall s h d, FInv W fsem fpre sem s -> st_built s f0 = true ->
+    is_raise (fspec W fsem fpre (st_cache s) f0) = true ->
+    let s1 := set_value W s f0 v0 in
+    rok_history W fsem fpre rorder f0 s1 h -> d < wb_n W ->
+    let s2 := fst (run_f W fsem fpre rorder s1 h) in
+    st_cache s2 f0 = v0 /\
+    fval (snd (evaluate_f W fsem fpre rorder s2 d))
+    = fval (fspec (as_input W f0 v0) fsem fpre (st_cache s2) d).
+Proof. exact repair_weak_p. Qed.
+Print Assumptions C09_repair_weak_partial.
+
+Theorem C09_repair_value_weak_partial : forall W fsem fpre rorder sem f0 v0,
+  wf W -> sem_nonblank_weak W sem -> completes fsem fpre sem -> (forall n, wb_stored W n = VNone) ->
+  f0 < wb_n W -> wb_input W f0 = false -> v0 <> VNone ->
+  forall s h d, FInv W fsem fpre sem s -> st_built s f0 = true ->
+    is_raise (fspec W fsem fpre (st_cache s) f0) = true ->
+    let s1 := set_value W s f0 v0 in
+    rok_history W fsem fpre rorder f0 s1 h -> d < wb_n W ->
+    let s2 := fst (run_f W fsem fpre rorder s1 h) in
+    (forall k, k = d \/ anc (as_input W f0 v0) k d ->
+               ~ fails_at (as_input W f0 v0) fsem fpre sem (st_cache s2) k) ->
+    snd (evaluate_f W fsem fpre rorder s2 d) = FVal (spec (as_input W f0 v0) sem (st_cache s2) d).
+Proof. exact repair_value_weak_p. Qed.
+Print Assumptions C09_repair_value_weak_partial.
